@@ -1,6 +1,10 @@
 /- C04 driver: `C04 run …` / `C04 spec …` (the C01 machine and batch reader, limits in the cfg),
    `C04 gzip <limit> [[chunk,[[out,tail],…]],…]` → `ok [delivered,…] <rejected> <size>`,
-   `C04 within <cfg> <nreq> [[i,len],…]` → `ok T|F` -/
+   `C04 within <cfg> <nreq> [[i,len],…]` → `ok T|F`,
+   `C04 eff <cfg> <i>` → `ok <maxHeader> <effective body limit of request i>`.
+   `<cfg>` is either C01's `[maxHeader,maxBody,[override|~,…],noKeepAlive]` (effective limits) or the raw options
+   `[max_header_size|~,max_body_size|~,max_buffer_size|~,[override|~,…],noKeepAlive]` (`Raw`, mapped by `Raw.cfg`);
+   `<limit>` of `gzip` is a number or `[<cfg>,<i>]` (= `effLimit cfg i`). -/
 import TornadoModel.Base.Wire
 import TornadoModel.C01.Drv
 import TornadoModel.C04.Spec
@@ -17,28 +21,61 @@ def decCall (v : V) : Option (Str × List Ans) := do
   | [c, s] => pure (← c.byteNats?, ← (← s.list?).mapM decAns)
   | _ => none
 
+def decOpt (v : V) : Option (Option Nat) := if v.isNone then some none else v.nat?.map some
+
+def decRaw (v : V) : Option Raw := do
+  match ← v.list? with
+  | [mh, mb, buf, ov, nk] =>
+    pure { maxHeaderSize := ← decOpt mh, maxBodySize := ← decOpt mb, maxBufferSize := ← decOpt buf,
+           overrides := ← (← ov.list?).mapM decOpt, noKeepAlive := ← nk.bool? }
+  | _ => none
+
+/-- effective or raw form -/
+def decAnyCfg (v : V) : Option Cfg :=
+  match v with
+  | .list [_, _, _, _, _] => (decRaw v).map Raw.cfg
+  | _ => C01.Drv.decCfg v
+
+def encCfg (c : Cfg) : V :=
+  .list [.int c.maxHeader, .int c.maxBody, .list (c.overrides.map (V.ofOpt V.ofNat)), V.ofBool c.noKeepAlive]
+
+/-- `run` / `spec` are C01's; the configuration is normalised to its effective form first -/
+def viaC01 (op c : String) (rest : List String) : String :=
+  match V.parse c >>= decAnyCfg with
+  | some cfg => C01.Drv.handle (op :: (encCfg cfg).render :: rest)
+  | none => err "bad-cfg"
+
+def decLimit (v : V) : Option Nat :=
+  match v with
+  | .list [c, i] => do pure (effLimit (← decAnyCfg c) (← i.nat?))
+  | _ => v.nat?
+
 def handle (toks : List String) : String :=
   match toks with
-  | "run" :: _ => C01.Drv.handle toks
-  | "spec" :: _ => C01.Drv.handle toks
+  | "run" :: c :: rest => viaC01 "run" c rest
+  | "spec" :: c :: rest => viaC01 "spec" c rest
   | _ =>
     match toks.mapM V.parse with
     | none => err "bad-arg"
     | some args =>
       match args with
       | [.atom "gzip", lim, calls] =>
-        match lim.nat?, calls.list? >>= (·.mapM decCall) with
+        match decLimit lim, calls.list? >>= (·.mapM decCall) with
         | some limit, some cs =>
           let g := gzRun limit cs {}
           ok [.list (g.delivered.map V.ofByteNats), V.ofBool g.rejected, .int g.size, V.ofBool (Spec.gzWithin limit g)]
         | _, _ => err "bad-gzip"
       | [.atom "within", c, n, ds] =>
-        match C01.Drv.decCfg c, n.nat?, ds.list? >>= (·.mapM (fun d => do
+        match decAnyCfg c, n.nat?, ds.list? >>= (·.mapM (fun d => do
             match ← d.list? with
             | [i, l] => pure (Ev.data (← i.nat?) (List.replicate (← l.nat?) 0))
             | _ => none)) with
         | some cfg, some nreq, some evs => ok [V.ofBool (Spec.withinLimits cfg evs nreq)]
         | _, _, _ => err "bad-within"
+      | [.atom "eff", c, i] =>
+        match decAnyCfg c, i.nat? with
+        | some cfg, some i => ok [.int cfg.maxHeader, .int (effLimit cfg i)]
+        | _, _ => err "bad-eff"
       | _ => err "bad-cmd"
 
 end TornadoModel.C04.Drv
